@@ -26,3 +26,42 @@ def pmap(fn, items, procs=None):
         res = list(pool.map(_call, range(len(items)), chunksize=1))
     res.sort(key=lambda t: t[0])
     return [r for _, r in res]
+
+
+def _iso_child(conn, fn, item):
+    try:
+        conn.send(("ok", fn(item)))
+    except BaseException as ex:  # reported to the parent, which re-raises
+        import traceback
+
+        conn.send(("raised", f"{type(ex).__name__}: {ex}\n{traceback.format_exc()}"))
+    finally:
+        conn.close()
+
+
+def pmap_isolated(fn, items, procs=None):
+    """ordered map in which EVERY item runs in a forked child of its own (the child starts from the parent's state at the
+    time of the call and nothing an item leaves behind in its process -- class-level or module-level memos -- reaches
+    another item). Call it before the parent itself has exercised the code under test."""
+    items = list(items)
+    procs = procs or min(16, os.cpu_count() or 1)
+    ctx = mp.get_context("fork")
+    out = [None] * len(items)
+    for lo in range(0, len(items), procs):
+        live = []
+        for i in range(lo, min(lo + procs, len(items))):
+            a, b = ctx.Pipe(duplex=False)
+            p = ctx.Process(target=_iso_child, args=(b, fn, items[i]))
+            p.start()
+            b.close()
+            live.append((i, p, a))
+        for i, p, a in live:
+            try:
+                st, val = a.recv()
+            except EOFError:
+                st, val = "raised", "child died without a result"
+            p.join()
+            if st != "ok":
+                raise RuntimeError(f"isolated job {i} failed: {val}")
+            out[i] = val
+    return out
